@@ -266,6 +266,18 @@ pub fn run(run: &mut Run) -> Finish {
             l.case(true, shape_class(&m));
         }
     });
+    let ng = long_count();
+    run.par_slice("G: long maps of 15..1000 tokens (one line / one token per line / 7 per line with sourceless tokens), zig-zag original positions, three constructions", 7, ng * 3, |idx, l| {
+        let k = idx & ((1 << 40) - 1);
+        let m = long_map(k / 3);
+        let (v, ran) = check_regular(&m, (k % 3) as usize);
+        for x in v {
+            l.violation(idx, x);
+        }
+        if ran {
+            l.case(true, h64(&("G", k)));
+        }
+    });
     let nx = x_count();
     run.par_slice("X: extreme coordinates: two / three tokens with generated columns and original lines / columns over {0, 7, 2^31-1, 2^31, 2^32-2, 2^32-1} (deltas of 2^31 and more in both directions), three constructions", 6, nx * 3, |idx, l| {
         let k = idx & ((1 << 40) - 1);
